@@ -1,6 +1,7 @@
 /-
 C09 — CLP linking aligns global axes faithfully
-(glotaran/optimization/data_provider.py : DataProviderLinked, after fix D2).
+(glotaran/optimization/data_provider.py : DataProviderLinked, after fix D2;
+glotaran/optimization/estimation_provider.py : EstimationProviderLinked.get_result, residual part, after fix D27).
 
 Model of `align_index`, `create_aligned_global_axes`, `align_data`, `align_dataset_indices`,
 `align_groups`, `align_weights` over exact rationals.  A dataset is its label, its global
@@ -146,6 +147,59 @@ def tablesOf (dss : List Dataset) (al : List (List Rat)) : Tables :=
 def provider (tol : Rat) (m : Method) (dss : List Dataset) : Option Tables :=
   (createAlignedAxes tol m (dss.map (·.axis))).map (tablesOf dss)
 
+/-! ### `EstimationProviderLinked.get_result`: cutting the stacked residuals back -/
+
+/-- `self._data_provider.get_model_axis(label).size` (datasets are keyed by label) -/
+def msizeOf (dss : List Dataset) (l : String) : Nat :=
+  match dss.find? (fun ds => ds.label == l) with
+  | some ds => ds.msize
+  | none => 0
+
+/-- `group_definitions[group_label]` -/
+def lookupDef (defs : List (String × List String)) (g : String) : List String :=
+  match defs.find? (fun e => e.1 == g) with
+  | some e => e.2
+  | none => []
+
+/-- one aligned index of `get_result` for the dataset `label`: skipped when the dataset is not in
+    the group definition; else `residual[start:end]` with `start` = the summed model-axis sizes of
+    the datasets before it in the group definition -/
+def cutBlock (szL : String → Nat) (groupDatasets : List String) (residual : List Rat) (label : String) :
+    Option (List Rat) :=
+  match groupDatasets.idxOf? label with
+  | none => none
+  | some k => some ((residual.drop ((groupDatasets.take k).map szL).sum).take (szL label))
+
+/-- the same with the index of the part on the dataset's own global axis
+    (`get_aligned_dataset_indices(index)[dataset_index]`, after fix D27) -/
+def resultPart (szL : String → Nat) (groupDatasets : List String) (indices : List Nat) (residual : List Rat)
+    (label : String) : Option (Nat × List Rat) :=
+  match groupDatasets.idxOf? label with
+  | none => none
+  | some k => (cutBlock szL groupDatasets residual label).map (fun b => (indices.getD k 0, b))
+
+/-- insertion into a list of (key, part) pairs ordered by key -/
+def insertByKey (p : Nat × List Rat) : List (Nat × List Rat) → List (Nat × List Rat)
+  | [] => [p]
+  | q :: qs => if p.1 ≤ q.1 then p :: q :: qs else q :: insertByKey p qs
+
+/-- `[parts[i] for i in np.argsort(keys)]` (the keys of one dataset are distinct) -/
+def sortByKey (l : List (Nat × List Rat)) : List (Nat × List Rat) := l.foldr insertByKey []
+
+/-- the residual columns `get_result` reports for one dataset: collected in aligned-index order,
+    then ordered by their index on the dataset's own global axis (fix D27); the code labels them
+    with the dataset's own global axis -/
+def resultResidual (dss : List Dataset) (t : Tables) (residuals : List (List Rat)) (label : String) :
+    List (List Rat) :=
+  (sortByKey (((t.labels.zip t.indices).zip residuals).filterMap (fun lir =>
+    resultPart (msizeOf dss) (lookupDef t.defs lir.1.1) lir.1.2 lir.2 label))).map (·.2)
+
+/-- the code before fix D27 (kept for the regression example in Props/C09.lean): the collected
+    columns stay in aligned-index order and are labelled positionally -/
+def resultResidualBeforeD27 (dss : List Dataset) (t : Tables) (residuals : List (List Rat)) (label : String) :
+    List (List Rat) :=
+  (t.labels.zip residuals).filterMap (fun lr => cutBlock (msizeOf dss) (lookupDef t.defs lr.1) lr.2 label)
+
 /-! ### driver -/
 open Glotaran.Proto
 
@@ -175,7 +229,9 @@ def showTables (t : Tables) : String :=
 /-- protocol:
     `align x [target] tol method`            → the aligned value
     `axes tol method [[axis],…]`             → `ok [[aligned],…]` / `err AlignDataset`
-    `provider tol method [[label,msize,[axis],[[col],…],none|[[wcol],…]],…]` → tables / error -/
+    `provider tol method [[label,msize,[axis],[[col],…],none|[[wcol],…]],…]` → tables / error
+    `result tol method [datasets as above] [[stacked residual],…]` → per dataset the residual
+      columns `get_result` reports (`ok [[[col],…],…]`) / error -/
 def driverStep (s : Unit) (ts : List Tree) : Unit × String :=
   match ts with
   | [.atom "align", x, tgt, tol, m] =>
@@ -196,6 +252,14 @@ def driverStep (s : Unit) (ts : List Tree) : Unit × String :=
       | none => (s, "err AlignDataset")
       | some t => (s, showTables t)
     | _, _, _ => (s, "bad-op")
+  | [.atom "result", tol, m, dss, res] =>
+    match tol.rat?, parseMethod m, Tree.listOf? parseDataset dss, res.ratss? with
+    | some tol, some m, some dss, some res =>
+      match provider tol m dss with
+      | none => (s, "err AlignDataset")
+      | some t =>
+        (s, "ok " ++ showList (dss.map (fun ds => showList ((resultResidual dss t res ds.label).map showRats))))
+    | _, _, _, _ => (s, "bad-op")
   | _ => (s, "bad-op")
 
 end Glotaran.C09
